@@ -273,8 +273,16 @@ pub fn random_histories<W: Write>(cx: &mut Ctx<W>, rng: &mut ChaCha8Rng, n: usiz
             if cx.derive && (i + 1 == len || qpoints.contains(&(i + 1))) {
                 // a few derive operations from this state, each result queried
                 let names: Vec<i32> = (1..=k).chain(std::iter::once(99)).collect();
-                let sub: Vec<i32> = names.iter().copied().filter(|_| rng.gen_bool(0.6)).collect();
-                for op in [Op::Subgraph(sub), Op::Reverse, Op::SetWeights(if rng.gen_bool(0.5) { 7 } else { NAN_W }), Op::ToSingle] {
+                let mut sub: Vec<i32> = names.iter().copied().filter(|_| rng.gen_bool(0.6)).collect();
+                // the request is a list: any order, and a name may be repeated; a short one beside the long one
+                if rng.gen_bool(0.5) {
+                    sub.shuffle(rng);
+                }
+                let mut small: Vec<i32> = names.choose_multiple(rng, 2).copied().collect();
+                if rng.gen_bool(0.3) {
+                    small.push(small[0]);
+                }
+                for op in [Op::Subgraph(sub), Op::Subgraph(small), Op::Reverse, Op::SetWeights(if rng.gen_bool(0.5) { 7 } else { NAN_W }), Op::ToSingle] {
                     let (id, res) = cx.step(parent, &path, &op);
                     if res == "Ok" {
                         let mut p2 = path.clone();
